@@ -43,8 +43,9 @@ LEVEL = {
                "classes and fold argument order.",
     "not_decided": "numeric results, the complete sorted order, and the exception class for unorderable / unhashable "
                    "data (run-time values).",
-    "technique": "static analysis: finite-domain abstract evaluation of comparison guards, taint and alias dataflow, order algebra",
+    "technique": "static analysis: finite-domain abstract evaluation (comparison guards; whole aggregations as tables against the executed stdlib), taint and alias dataflow, order algebra",
 }
+LEVEL["decided"] += " (R02.8) reduce, sum, all, any, min, max, list, tuple, set as finite tables by abstract evaluation (378 cells: every truth pattern, every ranking with ties of up to 3 items, with / without key, default, initial, start) against the stdlib function executed on the same symbols; (R02.9) no handler of an aggregation can intercept an exception raised by user code (C06's census, shared)."
 
 AGGREGATIONS = ["builtins.all", "builtins.any", "builtins.sum", "builtins.min", "builtins.max", "builtins._min_max",
                 "builtins.list", "builtins.tuple", "builtins.set", "builtins.dict", "builtins.sorted",
